@@ -84,3 +84,22 @@ Theorem C17_text_remap : forall uniq input, NoDup uniq -> (forall x, In x uniq <
     (forall a, a < d -> exists i, nthN out i = Some a).
 Proof. exact text_remap_correct. Qed.
 Print Assumptions C17_text_remap.
+
+From QwtModel Require Import LeavesUtils LeavesUtilsOk.
+
+(* ---- T3: the utils leaves REGENERATED from src/utils/mod.rs on every run (tools/gen_leaves.py ->
+   Gen/LeavesUtils.v) equal the hand-written model the theorems above are about. *)
+Theorem C17_source_select_in_word : forall word k, word < 2 ^ 64 -> k < 2 ^ 64 ->
+  g_select_in_word word k = select_in_word word k.
+Proof. exact g_select_in_word_ok. Qed.
+Print Assumptions C17_source_select_in_word.
+Theorem C17_source_select_in_word_u128 : forall word k, word < 2 ^ 128 -> k < 2 ^ 64 ->
+  g_select_in_word_u128 word k = select_in_word_u128 word k.
+Proof. exact g_select_in_word_u128_ok. Qed.
+Print Assumptions C17_source_select_in_word_u128.
+Theorem C17_source_msb :
+  (forall v, v < 2 ^ 8 -> g_msb_u8 v = msb_w 8 v) /\ (forall v, v < 2 ^ 16 -> g_msb_u16 v = msb_w 16 v) /\
+  (forall v, v < 2 ^ 32 -> g_msb_u32 v = msb_w 32 v) /\ (forall v, v < 2 ^ 64 -> g_msb_u64 v = msb_w 64 v) /\
+  (forall v, v < 2 ^ 128 -> g_msb_u128 v = msb_w 128 v).
+Proof. exact (conj g_msb_u8_ok (conj g_msb_u16_ok (conj g_msb_u32_ok (conj g_msb_u64_ok g_msb_u128_ok)))). Qed.
+Print Assumptions C17_source_msb.
